@@ -265,7 +265,7 @@ func runC13(c *mon.Ctx) {
 	for p := 1; p <= 2; p++ {
 		pname := map[int]string{1: model.P1Name, 2: model.P2Name}[p]
 		var cases []setCase
-		for l := 0; l <= 80; l++ {
+		for _, l := range model.SweepLens() {
 			l := l
 			cases = append(cases,
 				setCase{fmt.Sprintf("SetImplID/len%d", l), l == 32, func(cl psatoken.IClaims) error { return cl.SetImplID(g.Bytes(l)) }},
